@@ -255,12 +255,12 @@ fn classify_key(k: &str) -> String {
 // ---------------------------------------------------------------------------------------------
 // concrete representatives of the tokens
 
-const KEY_TOKENS: [&str; 37] = [
+const KEY_TOKENS: [&str; 38] = [
     "status", "description", "modified", "start", "end", "priority", "wait", "entry", "due",
     "tag:valid", "tag:valid2", "tag:synth", "tag:empty", "tag:malformed", "tag:sep",
     "ann:valid", "ann:valid2", "ann:neg", "ann:plus", "ann:empty", "ann:nonnum", "ann:far",
     "ann:huge", "ann:negfar", "ann:fw", "ann:sep",
-    "dep:t2", "dep:t3", "dep:self", "dep:missing", "dep:empty", "dep:malformed", "dep:sep",
+    "dep:t2", "dep:t2alt", "dep:t3", "dep:self", "dep:missing", "dep:empty", "dep:malformed", "dep:sep",
     "uda:plain", "uda:ns", "uda:near", "uda:empty",
 ];
 const VAL_TOKENS: [&str; 21] = [
@@ -318,6 +318,11 @@ fn key_reps(tok: &str) -> [String; 3] {
         ),
         "ann:sep" => s3("annotation_1_2", "annotation_annotation_5", "annotation_12 3"),
         "dep:t2" => dep_reps(tid(2)),
+        "dep:t2alt" => {
+            // the same uuid, always in a spelling other than the one "dep:t2" has
+            let r = dep_reps(tid(2));
+            [r[1].clone(), r[2].clone(), r[0].clone()]
+        }
         "dep:t3" => dep_reps(tid(3)),
         "dep:self" => dep_reps(tid(1)),
         "dep:missing" => dep_reps(tid(9)),
